@@ -68,6 +68,24 @@ EXTRA = ("Prefer mechanisms that differ in KIND from everything listed below. Th
          "classify_by_sections), config_loader.py, section_engine.py, format_parser.py, classification.py, parsers.py, merchant_utils.py.  Run "
          "`git -C <your worktree> log --oneline | head -55` and make sure your change is not simply the reverse of one of those commits.  Put "
          "your two variants in two different files if the property allows.")
+EXTRA_R11 = EXTRA
+EXTRA = ("Prefer mechanisms that differ in KIND from everything listed below. This time imitate a well-meaning MODERNISATION or CLEAN-UP pull request: a "
+         "hand-written loop replaced by a library call that is almost equivalent (csv dialect options, re flags, str.casefold vs lower vs upper, "
+         "str.split() vs split(' '), splitlines vs split('\\n'), datetime.strptime vs fromisoformat, float() vs Decimal, json.dumps defaults such as "
+         "ensure_ascii/sort_keys, os.path vs pathlib semantics, glob vs listdir order, shutil.copy vs copy2 vs move, open() modes / newline= / "
+         "encoding= / errors=), a dataclass or dict whose field gains a default, a comprehension that replaces a loop with a `continue`/`break`, a "
+         "memoisation (functools.lru_cache, a module-level dict) whose key forgets one ingredient, a condition simplified with De Morgan that is off "
+         "for one combination, a 'defensive' early return / try-except / `.get(k, default)` that hides a case which used to be handled, a warning "
+         "that replaces an error or the reverse, a value now computed once and reused although an input changes in between, and text that is "
+         "normalised (stripped, case-folded, NFC-normalised, de-quoted) on one path but not on the sibling path.  Also consider the environment: "
+         "TALLY_CONFIG and other environment variables, the current directory, stdout being a pipe rather than a terminal, NO_COLOR, the locale, an "
+         "output directory that already exists or does not, read-only or missing files.  Spread out over the code base (commands/*.py, cli.py, "
+         "config_loader.py, analyzer.py, report.py, spending_report.js, section_engine.py, format_parser.py, classification.py, parsers.py, "
+         "merchant_utils.py, modifier_parser.py) rather than expr_parser.py and merchant_engine.py unless the property lives "
+         "there.  Run `git -C <your worktree> log --oneline | head -60` and make sure your change is not simply the reverse of one of those commits.  "
+         "Put your two variants in two different files if the property allows.")
+if len(sys.argv) > 2 and sys.argv[2] == 'r11':
+    EXTRA = EXTRA_R11
 if len(sys.argv) > 2 and sys.argv[2] == 'r9':
     EXTRA = EXTRA_R9
 if len(sys.argv) > 2 and sys.argv[2] == 'r8':
